@@ -831,6 +831,10 @@ impl<T: Transport, Env: UtpEnvironment> VirtualSocket<T, Env> {
             }
             PopExpiredProbe::NotExpired => {
                 trace!("MTU probe hasnt expired yet");
+                // Nothing is segmented while the probe is outstanding, but bytes written
+                // meanwhile are still unsent data.
+                self.this_poll.unsegmented_data =
+                    tx_len.saturating_sub(self.user_tx_segments.total_len_bytes());
                 return Ok(());
             }
             PopExpiredProbe::Empty => {}
